@@ -12,8 +12,8 @@ shape with `ReadInstance` in the place of `CreateInstance`) on the stream model 
 What the registry / instance manager decide (is the keyword a known entity, is the id already taken, does the external
 mapping name a legal combination) enters as an *oracle* `Oracle`; the reading of an external mapping's parts
 (`CreateSubSuperInstance` with `SkipSimpleRecord`, `PushPastImbedAggr`, `PushPastString`) is modelled (`createSubSuper`).
-Not modelled: the `&SCOPE` branch (`CreateScopeInstances`, which re-enters `CreateInstance`) — files without `&SCOPE` are
-the domain of the theorems (`_partial`).  Working-session state letters are modelled (`headStage`). -/
+The `&SCOPE` branch is modelled as the code behaves: `GetKeyword` never accepts `&`, so `CreateScopeInstances` always takes
+its first error exit (`ciRecord`).  Working-session state letters are modelled (`headStage`). -/
 namespace StepModel.P21Safe
 
 def chEq : Byte := 61
@@ -230,6 +230,11 @@ def ciRecord (o : Oracle) (sub tok skip : IS → Out LoopRes) (s : IS) (st : Nat
         if o.complexOk rs.s then ciDone tok skip rs.s (st + rs.steps) else ciFail skip rs.s (st + rs.steps)
       | .overflow i k => .overflow i k
       | .outOfFuel => .outOfFuel
+    else if p = some chAmp then
+      -- `CreateScopeInstances`: `GetKeyword` reads the `&`, finds it is not a keyword character and puts it back; the
+      -- comparison with "&SCOPE" therefore always fails: `SkipInstance`, SEVERITY_INPUT_ERROR, `return ENTITY_NULL`
+      -- (the rest of `CreateScopeInstances` cannot be reached — regenerated fact `getKeywordAcceptsAmp = false`)
+      ciFail skip ((s3.get).1.putback chAmp) (st + 1)
     else if p = some chBang then
       ciFail skip (readStdKeyword (s3.get).1).1 (st + (readStdKeyword (s3.get).1).2.length)
     else if o.known (readStdKeyword s3).2 then ciDone tok skip (readStdKeyword s3).1 (st + (readStdKeyword s3).2.length)
